@@ -326,3 +326,83 @@ func TestOrdering(t *testing.T) {
 		}
 	})
 }
+
+// TestReplay re-evaluates a recorded case from the replay file alone: a version pair on a source
+// (same-side), the omitted version on a source, a version string, a grid point, or an ordering triple.
+func TestReplay(t *testing.T) {
+	path := harness.ReplayPath()
+	if path == "" {
+		t.Skip("no VERIF_REPLAY")
+	}
+	vi, src, err := harness.LoadReplay(path)
+	if err != nil {
+		t.Fatal(err)
+	}
+	harness.Eval()
+	pv := func(s string) (px.Ver, bool) {
+		var v px.Ver
+		n, _ := fmt.Sscanf(s, "%d.%d", &v.Major, &v.Minor)
+		return v, n == 2
+	}
+	switch {
+	case vi.Meta["versionA"] != "":
+		a, _ := pv(vi.Meta["versionA"])
+		b, _ := pv(vi.Meta["versionB"])
+		ra, rb := px.Parse(src, a, true), px.Parse(src, b, true)
+		if ra.Panic == "" && rb.Panic == "" {
+			if d := diff(ra, rb); d != "" {
+				harness.Failf(t, "same-side", src, vi.Meta, "versions %s and %s disagree: %s", a, b, d)
+			}
+		}
+	case strings.HasPrefix(vi.Check, "default-version"):
+		def, v74 := px.ParseV(src, nil, true), px.Parse(src, px.V74, true)
+		if def.Err != nil || def.Panic != "" {
+			harness.Failf(t, "default-version", src, vi.Meta, "Parse with an omitted version fails: err=%v panic=%s", def.Err, def.Panic)
+		} else if d := diff(def, v74); d != "" {
+			harness.Failf(t, "default-version", src, vi.Meta, "omitted version does not behave as 7.4: %s", d)
+		}
+	case strings.HasPrefix(vi.Check, "version-strings"):
+		s := string(src)
+		wantMajor, wantMinor, wantOK := refParse(s)
+		var v *version.Version
+		var err error
+		if p := px.Guard(func() { v, err = version.New(s) }); p != "" {
+			harness.Failf(t, "version-strings", src, vi.Meta, "version.New(%q) panicked: %s", s, p)
+		} else if wantOK != (err == nil) || (wantOK && (v == nil || v.Major != wantMajor || v.Minor != wantMinor)) {
+			harness.Failf(t, "version-strings", src, vi.Meta, "version.New(%q) = %+v, err=%v; expected ok=%v {%d %d}", s, v, err, wantOK, wantMajor, wantMinor)
+		}
+	case vi.Meta["version"] != "":
+		if v, ok := pv(vi.Meta["version"]); ok {
+			checkPair(t, v.Major, v.Minor)
+		}
+	case strings.HasPrefix(vi.Check, "ordering"):
+		var a, b, c version.Version
+		if n, _ := fmt.Sscanf(string(src), "&{Major:%d Minor:%d} &{Major:%d Minor:%d} &{Major:%d Minor:%d}", &a.Major, &a.Minor, &b.Major, &b.Minor, &c.Major, &c.Minor); n == 6 {
+			cmp := func(x, y *version.Version) int {
+				switch {
+				case x.Major != y.Major && x.Major < y.Major, x.Major == y.Major && x.Minor < y.Minor:
+					return -1
+				case x.Major == y.Major && x.Minor == y.Minor:
+					return 0
+				}
+				return 1
+			}
+			sg := func(i int) int {
+				if i < 0 {
+					return -1
+				}
+				if i > 0 {
+					return 1
+				}
+				return 0
+			}
+			r := cmp(&a, &b)
+			if sg(a.Compare(&b)) != r || a.Less(&b) != (r < 0) || a.LessOrEqual(&b) != (r <= 0) || a.Greater(&b) != (r > 0) || a.GreaterOrEqual(&b) != (r >= 0) ||
+				a.InRange(&b, &c) != (cmp(&a, &b) >= 0 && cmp(&a, &c) <= 0) {
+				harness.Failf(t, "ordering", src, vi.Meta, "the ordering helpers disagree with numeric order for %+v %+v %+v", a, b, c)
+			}
+		}
+	default:
+		t.Skip("nothing to replay in this file (command-line cases are re-run by TestCLIVersionFlag)")
+	}
+}
